@@ -109,6 +109,77 @@ func c17(c *Ctx) {
 	}
 	R.Min("R17.1", "limit-relevant insert sites", n, 8)
 
+	// ---- R17.4 the connector is told only about operations that fit ------------------------
+	R.Explain("R17.4", "refusal before any remote effect: every call through the state's Connector that makes the remote side grow (CreateMailbox, CreateMessage, AddMessagesToMailbox, MoveMessagesFromMailbox) is dominated by the limit check for what it is about to add, in the same transaction; for a call inside a loop the check must stand before the loop and cover the whole batch (a per-iteration check lets the first iterations reach the connector before a later one is refused).  Otherwise a refused command leaves the remote changed, and the connector's echo later applies part of it.")
+	remote := map[string]growth{
+		"CreateMailbox":           {"CreateMailbox", []string{"CheckMailBoxCount"}, "GetMailboxCount"},
+		"CreateMessage":           {"CreateMessage", []string{"CheckMailBoxMessageCount", "CheckUIDCount"}, "GetMailboxMessageCountAndUID"},
+		"AddMessagesToMailbox":    {"AddMessagesToMailbox", []string{"CheckMailBoxMessageCount", "CheckUIDCount"}, "GetMailboxMessageCountAndUID"},
+		"MoveMessagesFromMailbox": {"MoveMessagesFromMailbox", []string{"CheckMailBoxMessageCount", "CheckUIDCount"}, "GetMailboxMessageCountAndUID"},
+	}
+	nr := 0
+	for _, f := range c.funcsInPkg("internal/state") {
+		for _, cs := range engine.Calls(f) {
+			cc := cs.Common()
+			if !cc.IsInvoke() || !engine.IsNamed(cc.Value.Type(), "internal/state", "Connector") {
+				continue
+			}
+			g, ok := remote[cc.Method.Name()]
+			if !ok {
+				continue
+			}
+			// the transaction handed to the connector
+			var txArg ssa.Value
+			for _, a := range cc.Args {
+				if engine.IsNamed(a.Type(), "db", "Transaction") {
+					txArg = a
+				}
+			}
+			if txArg == nil {
+				continue
+			}
+			nr++
+			key := fmtf("%s|remote.%s", c.name(f), g.method)
+			if why, ok := exempt[engine.ShortName(topFn(f))]; ok {
+				R.Pass("R17.4", key, P.Pos(cs.Pos()), "exempt: "+why)
+				continue
+			}
+			c.strictLoop = true
+			ok2, why := c.limitChecked(f, cs.Instr, txOrigin(txArg), g.checks, g.read, 0)
+			if ok2 {
+				// the function may itself be called once per element of a batch: then the caller needs the
+				// check for the whole batch before its loop
+				if p, isParam := txOrigin(txArg).(*ssa.Parameter); isParam {
+					pi := engine.ParamIndex(f, p)
+					for _, cs2 := range P.CallersOf(f) {
+						if !isProductPkg(engine.RelPkg(P.OwnPkgPath(cs2.Fn))) || engine.Unwrap2(calleeOfSite(c, cs2)) != f {
+							continue
+						}
+						inLoop := false
+						for _, h := range cs2.Fn.Blocks {
+							if body := engine.LoopBody(h); body != nil && body[cs2.Instr.Block()] {
+								inLoop = true
+							}
+						}
+						if !inLoop {
+							continue
+						}
+						if _, ex := exempt[engine.ShortName(topFn(cs2.Fn))]; ex {
+							continue
+						}
+						arg := engine.ArgForParam(cs2.Common(), f, pi)
+						if okc, whyc := c.limitChecked(cs2.Fn, cs2.Instr, txOrigin(arg), g.checks, g.read, 0); !okc {
+							ok2, why = false, "the check is made once per element ("+c.name(cs2.Fn)+" calls "+c.name(f)+" in a loop) and "+whyc
+						}
+					}
+				}
+			}
+			c.strictLoop = false
+			R.Check(ok2, "R17.4", key, P.Pos(cs.Pos()), "the connector is called only after the limits were checked for the whole operation", why+": a command that is then refused has already changed the remote side; the connector's echo later applies part of it (partial effect of a refused operation)")
+		}
+	}
+	R.Min("R17.4", "growing connector calls in internal/state", nr, 5)
+
 	// ---- R17.3 all-or-nothing: one operation, one growing transaction ---------------------
 	R.Explain("R17.3", "all-or-nothing (structural part): a call that opens a write transaction (passes a func(ctx, db.Transaction) closure) whose closure can reach a limited insert is not inside a loop of its function — an operation that splits its inserts over several transactions commits the first ones before a later one is refused.")
 	isGrowth := func(cs engine.CallSite) bool {
@@ -180,6 +251,7 @@ func c17(c *Ctx) {
 // required check, fed from a read on the same transaction, with matching multiplicity;
 // otherwise the obligation moves to every static caller of f that passes the transaction.
 func (c *Ctx) limitChecked(f *ssa.Function, at ssa.Instruction, tx ssa.Value, checks []string, read string, depth int) (bool, string) {
+	strictLoop := c.strictLoop
 	missing := []string{}
 	mismatch := ""
 	for _, chk := range checks {
@@ -203,7 +275,13 @@ func (c *Ctx) limitChecked(f *ssa.Function, at ssa.Instruction, tx ssa.Value, ch
 			okMult := true
 			for _, h := range f.Blocks {
 				body := engine.LoopBody(h)
-				if body == nil || !body[at.Block()] || body[cs.Instr.Block()] {
+				if body == nil || !body[at.Block()] {
+					continue
+				}
+				if body[cs.Instr.Block()] {
+					if strictLoop {
+						okMult = false // a per-iteration check lets earlier iterations reach the connector before a later one is refused
+					}
 					continue
 				}
 				hasLen := false
@@ -245,9 +323,6 @@ func (c *Ctx) limitChecked(f *ssa.Function, at ssa.Instruction, tx ssa.Value, ch
 						inLoopOnly = true
 					}
 				}
-				if inLoopOnly {
-					continue
-				}
 				for pi, p := range g.Params {
 					if !engine.IsNamed(p.Type(), "db", "Transaction") {
 						continue
@@ -257,7 +332,16 @@ func (c *Ctx) limitChecked(f *ssa.Function, at ssa.Instruction, tx ssa.Value, ch
 						continue
 					}
 					if c.helperChecks(g, p, chk, read) {
-						found = true
+						if !inLoopOnly {
+							found = true
+						} else if bp := helperBatchParam(g, chk); bp >= 0 && bp < len(cs.Common().Args) {
+							// the helper is called once before the loop: it must be told the size of the whole batch
+							for _, x := range arithLeaves(engine.ArgForParam(cs.Common(), g, bp)) {
+								if _, ok := engine.IsBuiltinCall(x, "len"); ok {
+									found = true
+								}
+							}
+						}
 					}
 				}
 			}
@@ -390,7 +474,7 @@ func sameVal(a, b ssa.Value) bool {
 // count the mailbox that is inserted into and be told the size of the inserted batch.
 func sameMailboxAndBatch(f *ssa.Function, chk engine.CallSite, ins ssa.CallInstruction, read string, tx ssa.Value) string {
 	ic := ins.Common()
-	if read != "GetMailboxMessageCountAndUID" || !ic.IsInvoke() {
+	if read != "GetMailboxMessageCountAndUID" || !ic.IsInvoke() || !engine.IsNamed(ic.Value.Type(), "db", "Transaction") {
 		return ""
 	}
 	// insert: (ctx, mailbox, list|req)
@@ -458,4 +542,24 @@ func (c *Ctx) helperChecks(g *ssa.Function, tx *ssa.Parameter, chk, read string)
 		}
 	}
 	return true
+}
+
+// helperBatchParam: index of the parameter of g that is the "how many more" argument of its limit check
+// (-1 if it is not a parameter).
+func helperBatchParam(g *ssa.Function, chk string) int {
+	for _, cs := range engine.Calls(g) {
+		if cs.Instr.Parent() != g || !isLimitCheck(cs, chk) {
+			continue
+		}
+		args := cs.Common().Args
+		// Check*(recv, existing, new) / CheckMailBoxCount(recv, count)
+		for _, a := range args[1:] {
+			for _, x := range arithLeaves(a) {
+				if p, ok := x.(*ssa.Parameter); ok && p.Parent() == g && isIntKind(p.Type()) {
+					return engine.ParamIndex(g, p)
+				}
+			}
+		}
+	}
+	return -1
 }
